@@ -4,7 +4,8 @@ One case = one generated native history (merges, renames, exec flips, symlinks, 
 directories, names whose git order differs from byte order; paths vacated and re-occupied within one revision -
 an entry removed and an untouched directory / file / symlink moved onto its path or a new entry added there, two
 entries trading places; symlink <-> regular file changes that keep the bytes git stores, the file holding the link
-target as its text), judged by three groups of oracles (plus a live monitor on
+target as its text; merges that record the merged branch but keep none of its changes, so the merge revision's tree
+is its first parent's), judged by three groups of oracles (plus a live monitor on
 breezy.git.fetch.import_git_commit: the trees it caches must keep describing their own revision).  The revision
 shapes the export / import shortcuts are sensitive to are counted (w_* counters, shape:* histogram, no verdict):
 
@@ -18,15 +19,17 @@ shapes the export / import shortcuts are sensitive to are counted (w_* counters,
      served by `store[sha]` byte-identically; `find_missing_objects` must enumerate every reference object
      the receiver lacks.
  (b) git origin.  A repository built with plain dulwich from the same snapshots (same DAG, branch refs) is
-     fetched into a fresh rich-root bzr repository (one step or two steps); BazaarObjectStore over that
+     fetched into a fresh rich-root bzr repository (in one step, or in two / three steps with fresh objects per step,
+     the first step mostly stopping at the first parent of a merge whose other parent then arrives together with
+     the merge); BazaarObjectStore over that
      repository must serve every original commit / tree / blob byte-identically, from the cache the import
      filled and again after that cache was deleted; the imported trees equal the snapshots; a round-tripping
      (non-lossy) push of the imported branch into a fresh git repository reproduces the original commit ids.
  (c) push and fetch back.  Every native branch is pushed (lossy = dpush; the non-lossy push of native
      revisions is the documented refusal NoRoundtrippingSupport) into one local git repository, in one step
      or two; the git repository is read with plain dulwich: commit -> reference tree sha, parents mapped,
-     every reachable object present; fetched back into a fresh bzr repository the per-revision trees equal
-     the originals minus empty directories.
+     every reachable object present; fetched back into a fresh bzr repository (one step or stepwise as in (b)) the
+     per-revision trees equal the originals minus empty directories.
 """
 import os
 import shutil
@@ -41,11 +44,13 @@ TECHNIQUE = ("independent from-scratch reference (dulwich objects built from tre
 LEVEL_TEXT = ("generated native histories (quick <= 8 revisions / 3 branches, thorough <= 20 / 4) in 2a (mostly), "
               "1.9-rich-root, pack-0.92 and rich-root-pack; every revision of every history judged by every oracle; "
               "git side read with plain dulwich only; about half of the composite edits re-use a path within one revision "
-              "(removed entry replaced by a moved or new one, swaps) or flip symlink <-> file with unchanged git blob")
+              "(removed entry replaced by a moved or new one, swaps) or flip symlink <-> file with unchanged git blob; about a third "
+              "of the merges keep the first parent's tree unchanged; most git -> bzr transfers of histories with merges are "
+              "split at the first parent of a merge")
 RULE = ("one evaluation = one revision judged by one oracle group (a / b / c); distinct = distinct (tree snapshot, parents' "
         "snapshots, oracle group); non-trivial = the revision's tree has a sub-directory, a symlink or an executable "
         "file, or the revision is a merge")
-CASES = {"quick": 56, "thorough": 700}
+CASES = {"quick": 72, "thorough": 700}
 BUDGET_S = {"quick": 40, "thorough": 700}
 MIN_EVALS = {"quick": 400, "thorough": 6000}
 FLOORS = {"a_warm_tree": 150, "a_empty_map_tree": 150, "a_deleted_cache_tree": 150, "a_yielded_object": 300,
@@ -53,7 +58,10 @@ FLOORS = {"a_warm_tree": 150, "a_empty_map_tree": 150, "a_deleted_cache_tree": 1
           "b_cold_commit_sha": 100, "b_tree_equal": 100, "c_git_commit_tree": 100, "c_fetched_back_tree": 100,
           "a_merge_revision": 10, "a_parents_swapped_tree": 10,
           # workload counters: revisions in which a path changed owner / an entry changed kind keeping its git blob
-          "w_path_taken_over": 25, "w_kind_change_same_blob": 5}
+          "w_path_taken_over": 25, "w_kind_change_same_blob": 5,
+          # merges recording a parent none of whose changes were kept (git tree = first parent's); merges imported from
+          # git in a later step than their first parent, together with another parent
+          "w_merge_keeps_first_parent_tree": 2, "w_import_merge_first_parent_from_earlier_step": 3}
 EXHAUSTIVE = {"quick": False, "thorough": False}
 ASSUMPTIONS = [
     "the per-revision tree snapshot is read through the public RevisionTree API (iter_entries_by_dir, get_file_text, "
@@ -262,6 +270,56 @@ def attempt(ctx, what, fn, detail=None):
         d.pop("oid", None)
         ctx.fail(key, repr(e)[:400], d)
         return False, None
+
+
+def merge_splits(h, among=None):
+    """[(A, M)]: recorded merge M whose first parent A lacks another parent of M in its ancestry.  Transferring A in
+    one step and M in a later one, the receiver already stores M's first parent while another parent arrives
+    together with M (the incremental shape of `pull` after upstream merged a side branch)."""
+    from vf.checks._c35_hist import ancestry
+
+    out = []
+    for m in h.order:
+        ps = [p for p in h.recorded[m]["parents"] if p in h.recorded]
+        if len(ps) < 2 or (among is not None and (m not in among or any(p not in among for p in ps))):
+            continue
+        anc = ancestry(h, ps[0])
+        if any(p not in anc for p in ps[1:]):
+            out.append((ps[0], m))
+    return out
+
+
+def pick_steps(rng, h, pool, among=None, p_multi=0.6, p_split=0.75):
+    """Revisions to transfer first (in this order) before the final transfer of everything; [] = one step.
+    pool: revisions a step may stop at.  Mostly the first parent of a merge whose other parent is not in that
+    parent's ancestry, else any revision; sometimes a second intermediate stop."""
+    if len(pool) < 2 or rng.random() >= p_multi:
+        return []
+    splits = [a for a, _m in merge_splits(h, among) if a in pool]
+    steps = [rng.choice(splits) if splits and rng.random() < p_split else rng.choice(pool)]
+    if rng.random() < 0.3:
+        steps.append(rng.choice(pool))
+    return steps
+
+
+def count_steps(ctx, h, steps, tag, among=None):
+    """Workload counters for a stepwise transfer: merges that arrive in a step whose predecessor steps already
+    delivered the first parent but not some other parent."""
+    from vf.checks._c35_hist import ancestry
+
+    ctx.hist("%s:steps:%d" % (tag, len(steps) + 1))
+    have = set()
+    universe = set(h.order) if among is None else set(among)
+    for stop in list(steps) + [None]:
+        new = (universe if stop is None else ancestry(h, stop) & universe) - have
+        if have:
+            for m in new:
+                ps = [p for p in h.recorded[m]["parents"] if p in universe]
+                if len(ps) > 1 and ps[0] in have and any(p in new for p in ps[1:]):
+                    ctx.count("w_%s_merge_first_parent_from_earlier_step" % tag)
+                elif len(ps) > 1 and ps[0] in new and any(p in have for p in ps[1:]):
+                    ctx.hist("shape:%s:merge-other-parent-from-earlier-step" % tag)
+        have |= new
 
 
 # ----------------------------------------------------------------------------- (a)
@@ -487,14 +545,13 @@ def oracle_b(ctx, rng, h, revs):
     tcd.create_repository()
     what = pfx + "import"
 
+    steps = pick_steps(rng, h, h.order[:-1]) if len(h.order) > 2 else []
+    count_steps(ctx, h, steps, "import")
+
     def do_import():
-        src = Repository.open(gd)
-        if len(h.order) > 2 and rng.random() < 0.5:
-            mid = rng.choice(h.order[:-1])
-            ctx.hist("b:import:two-steps")
-            Repository.open(td).fetch(src, revision_id=default_mapping.revision_id_foreign_to_bzr(sha_of[mid]))
-        else:
-            ctx.hist("b:import:one-step")
+        for mid in steps:
+            # fresh objects per step: what separate `brz pull` runs see (nothing cached from the step before)
+            Repository.open(td).fetch(Repository.open(gd), revision_id=default_mapping.revision_id_foreign_to_bzr(sha_of[mid]))
         Repository.open(td).fetch(Repository.open(gd))
 
     ok, _ = attempt(ctx, what, do_import, {"format": fmt})
@@ -614,6 +671,7 @@ def oracle_c(ctx, rng, h, revs):
     from breezy.controldir import ControlDir, format_registry
     from breezy.repository import Repository
     from dulwich.repo import Repo
+    from vf.checks._c35_hist import ancestry
 
     gd = ctx.tmp("pushed")
     cd = ControlDir.create(gd, format=format_registry.make_controldir(rng.choice(["git-bare", "git-bare", "git"])))
@@ -635,6 +693,11 @@ def oracle_c(ctx, rng, h, revs):
         steps = [None]
         if len(mine) > 1 and rng.random() < 0.5:
             steps = [rng.choice(mine[:-1]), None]
+            tip_anc = ancestry(h, src.last_revision())
+            splits = [a for a, m in merge_splits(h, tip_anc) if a not in mapped]
+            if splits and rng.random() < 0.6:
+                steps = [rng.choice(sorted(splits)), None]
+                ctx.hist("c:push:stop-at-first-parent-of-merge")
         if rng.random() < 0.5:
             drop_git_cache(h.trees[name])
         for stop in steps:
@@ -685,7 +748,16 @@ def oracle_c(ctx, rng, h, revs):
     ctx.hist("c:fetch-back-format:" + fmt)
     td = ctx.tmp("back")
     ControlDir.create(td, format=format_registry.make_controldir(fmt)).create_repository()
-    ok, _ = attempt(ctx, pfx + "fetch-back", lambda: Repository.open(td).fetch(Repository.open(gd)), {"format": fmt})
+    pushed = [o for o in h.order if o in mapped]
+    back_steps = pick_steps(rng, h, pushed[:-1], among=set(pushed)) if len(pushed) > 2 else []
+    count_steps(ctx, h, back_steps, "fetch_back", among=set(pushed))
+
+    def fetch_back():
+        for mid in back_steps:
+            Repository.open(td).fetch(Repository.open(gd), revision_id=mapped[mid][1])
+        Repository.open(td).fetch(Repository.open(gd))
+
+    ok, _ = attempt(ctx, pfx + "fetch-back", fetch_back, {"format": fmt, "steps": [m.decode() for m in back_steps]})
     if not ok:
         return
     back = Repository.open(td)
@@ -764,7 +836,8 @@ def case(ctx):
     weights = H.WEIGHTS_KC if rng.random() < 0.4 else H.WEIGHTS
     try:
         h = H.build(ctx, rng, fmt, nrevs=nrevs, nbranches=3 if not thorough else 4, names=names, weights=weights,
-                    extra_kinds=H.EXTRA_KINDS + H.REUSE_KINDS * 2, start=H.rich_start if rng.random() < 0.75 else None, quiet=0.3)
+                    extra_kinds=H.EXTRA_KINDS + H.REUSE_KINDS * 2, start=H.rich_start if rng.random() < 0.75 else None, quiet=0.3,
+                    ours=0.3, merge_rate=0.7)
         repo = H.gather(h)
     except Exception as e:  # workload construction, not the operation under test
         ctx.discard("history-construction:%s" % type(e).__name__)
@@ -794,6 +867,14 @@ def case(ctx):
             continue
         old = {fid: p for p, fid in revs[p0]["ids"].items()}
         workload_shape(ctx, revs[p0], r, old)
+        others = [p for p in r["parents"][1:] if p in revs]
+        if others:
+            same0 = r["root"] == revs[p0]["root"]
+            same_other = any(r["root"] == revs[p]["root"] for p in others)
+            ctx.hist("shape:merge:git-tree-%s" % ("of-every-parent" if same0 and same_other else "of-first-parent" if same0 else
+                                                  "of-other-parent" if same_other else "own"))
+            if same0 and not same_other:
+                ctx.count("w_merge_keeps_first_parent_tree")
         for path, obj in r["objs"].items():
             if path and obj.type_name == b"tree" and old.get(r["ids"].get(path), path) != path:
                 suspect.add(obj.id)
